@@ -1,8 +1,8 @@
 #!/bin/bash
 # Detection sweep over every seeded change (seeded/_source/Cxx/<a-d>), each tried out in a scratch worktree (tools/seedtest.sh),
 # N at a time: the quick check of the property it was written against + the extra checks listed in seeded/_extra_checks.
-# usage: tools/detect_all.sh [N] [glob under seeded/_source, default 'C??/[a-f]']   -> seeded/_source/detect.log (read by tools/finish_seeds.py)
-N=${1:-3}; GLOB=${2:-C??/[a-f]}
+# usage: tools/detect_all.sh [N] [glob under seeded/_source, default 'C??/[a-h]']   -> seeded/_source/detect.log (read by tools/finish_seeds.py)
+N=${1:-3}; GLOB=${2:-C??/[a-h]}
 OUT=/verif/seeded/_source/detect.log
 [ -n "$2" ] || : > $OUT
 one() {
